@@ -232,7 +232,8 @@ func main() {
 		Rule: "each case is one generated block history with fresh, replayed, reordered, nonce-gapped transactions plus, in a third of the blocks, an attack on a valid transaction: one flipped bit in every byte of its envelope, its blob signed under every signature context found in the repository sources (with and without chain separation, other chain ids), byte-identical replays, transplanted signatures, and envelopes nobody signed (small-order public keys with message-independent signatures); " +
 			"'took effect' = non-empty state diff or code OK at the delivery tap; such a transaction must verify under the harness's own ed25519/sha512-256 check of this chain's transaction context, carry the signer's pre-state nonce, advance exactly that nonce, and its bytes must be new; non-trivial = history with >=20 effective transactions and all four attack kinds",
 		Cases: func(r *evid.Run) []chainsim.Case {
-			return chainsim.StdCases(r.Seed, r.Pick(64, 1600), r.Pick(50, 100), []string{"default", "registry", "hostile"})
+			cs := chainsim.StdCases(r.Seed, r.Pick(64, 1600), r.Pick(50, 100), []string{"default", "registry", "hostile"})
+			return chainsim.WithExtraCases(cs, r.Seed, r.Pick(4, 100), "keymanager") // key manager transactions
 		},
 		RunCase: runCase,
 		Floor:   10,
